@@ -497,7 +497,7 @@ func (e *Engine) rangeNext(st *St, x *ssa.Next) Value {
 	p := int(pos.Int())
 	// find the first present entry at or after p
 	ok := S.False
-	var k, v Value = kz, vz
+	var k, v Value
 	npos := e.c64(int64(n))
 	for i := n - 1; i >= p; i-- {
 		idx := i
@@ -508,8 +508,12 @@ func (e *Engine) rangeNext(st *St, x *ssa.Next) Value {
 		if en.P.IsFalse() {
 			continue
 		}
-		k = e.Merge(en.P, en.K, k)
-		v = e.Merge(en.P, en.V, v)
+		if k == nil {
+			k, v = en.K, en.V
+		} else {
+			k = e.Merge(en.P, en.K, k)
+			v = e.Merge(en.P, en.V, v)
+		}
 		npos = S.Ite(en.P, e.c64(int64(i+1)), npos)
 		ok = S.Or(ok, en.P)
 	}
@@ -517,6 +521,9 @@ func (e *Engine) rangeNext(st *St, x *ssa.Next) Value {
 		e.unsupported("map iteration over entries with symbolic presence")
 	}
 	st.heap.over[it.Pos] = npos
+	if k == nil {
+		k, v = kz, vz
+	}
 	return &TupleV{V: []Value{ok, k, v}}
 }
 
